@@ -123,6 +123,8 @@ render shows (the SSR string itself is checked by C08/C12); the model ignores th
 def handleHydrate (line : String) : String :=
   -- lists under hydration are not modelled: the real code cannot hydrate them at all (known finding D17)
   if (line.splitOn "(keyed ").length > 1 then "unmodelled: Keyed under hydration (D17)" else
+  -- NoSsr (a placeholder on the server, client-rendered children after mount) is judged by the oracle only
+  if (line.splitOn "(nossr").length > 1 then "unmodelled: NoSsr" else
   let parts := (line.splitOn " ").dropLast
   match parts.getLast?, parts.dropLast.getLast? with
   | some writes, some store =>
